@@ -1127,9 +1127,23 @@ package tchannel
 
 // (the value read is the one left in the sequential heap; other threads are
 // modelled by the havoc at the next acquisition of the lock)
+// lastseen(c): the state the most recent readState call on c returned -- a
+// VOLATILE ghost (an observation register): no frame covers it, every call
+// forgets it, so it can only be used right after the read, before any other call.
+//@ ghostfield lastseen volatile
 //@ func (c *Connection) readState() (s connectionState)
 //@   modifies c.state
 //@   ensures 1 <= s && s <= 4 && s == c.state
+//@   defines lastseen(c) == s
+//@   property C07
+
+// "new outbound calls fail locally": Close may land between the first look at
+// the state and the registration of the call's exchange; the call is worked on
+// (its transport headers are filled in, the first step after admission) only if
+// the state read AFTER the registration was still active.
+//@ func (c *Connection) beginCall(ctx context.Context, serviceName, methodName string, callOptions *CallOptions) (call *OutboundCall, err error)
+//@   label worked-on-only-if-seen-active-after-registering
+//@   atcall setHeaders lastseen(c) == connectionActive
 //@   property C07
 
 //@ func (ch *Channel) State() (s ChannelState)
